@@ -726,6 +726,9 @@ def run_for(ctx, pid, with_mc=True):
         judge(ctx, pid, rejected, focused=(tag != "common_pool"))
         if pid == "C03" and tag != "common_pool":
             group_rule(ctx, scs, rejected)
+    if pid in ("C02", "C03", "C04", "C05", "C07"):
+        from . import recv_model
+        recv_model.replay(ctx, pid)
     if pid in ("C02", "C03"):
         big_frames(ctx, pid)
     if pid == "C03":
@@ -903,7 +906,7 @@ def negative_controls(ctx, pid):
     v = tlc.emitted(r, "VERDICT")[0]
     rejected = {b["tid"]: b["why"] for b in v["bad"]}
     want = {"neg_payload", "neg_pong_removed", "neg_pong_payload", "neg_opcode", "neg_req"}
-    ctx.notes["negative_controls"] = {"rejected": rejected, "accepted": v["accepted"]}
+    ctx.notes.setdefault("negative_controls", {}).update({"rejected": rejected, "accepted": v["accepted"]})
     if set(rejected) != want or v["accepted"] != 1:
         ctx.machinery_error = "negative controls: expected %s rejected and 1 accepted, got %s / %d" % (sorted(want), rejected, v["accepted"])
 
